@@ -263,15 +263,25 @@ ParseRequest(w) ==
                              hdrs |-> h.hdrs, kind |-> b.kind, body |-> b.body]
 
 -----------------------------------------------------------------------------
-(* What "line breaks in values replaced by spaces" allows: every CR and every LF
-   becomes one SP, where a CR LF pair may count as one line break (one SP) or two. *)
-RECURSIVE BreaksToSpace(_, _, _)
-BreaksToSpace(s, i, pairAsOne) ==
+(* Arguments given as text: header names are ISO-8859-1, everything else UTF-8 (the documented API). *)
+Utf8One(c) ==
+    IF c < 128 THEN <<c>>
+    ELSE IF c < 2048 THEN <<192 + (c \div 64), 128 + (c % 64)>>
+    ELSE IF c < 65536 THEN <<224 + (c \div 4096), 128 + ((c \div 64) % 64), 128 + (c % 64)>>
+    ELSE <<240 + (c \div 262144), 128 + ((c \div 4096) % 64), 128 + ((c \div 64) % 64), 128 + (c % 64)>>
+Utf8(s) == FlattenSeq([i \in 1..Len(s) |-> Utf8One(s[i])])
+ValOctets(s, txt) == IF txt THEN Utf8(s) ELSE s
+
+IsUnsafe(b) == b = CR \/ b = LF \/ b = NUL
+HasUnsafe(s) == \E i \in 1..Len(s) : IsUnsafe(s[i])
+RECURSIVE UnsafeToSpace(_, _, _)
+UnsafeToSpace(s, i, pairAsOne) ==
     IF i > Len(s) THEN <<>>
-    ELSE IF pairAsOne /\ s[i] = CR /\ i < Len(s) /\ s[i + 1] = LF THEN <<SP>> \o BreaksToSpace(s, i + 2, pairAsOne)
-    ELSE IF IsLineBreakOctet(s[i]) THEN <<SP>> \o BreaksToSpace(s, i + 1, pairAsOne)
-    ELSE <<s[i]>> \o BreaksToSpace(s, i + 1, pairAsOne)
-\* the field value an independent parser may report for a value set to s
-SanitisedValues(s) == {Trim(BreaksToSpace(s, 1, TRUE)), Trim(BreaksToSpace(s, 1, FALSE))}
-HasLineBreak(s) == \E i \in 1..Len(s) : IsLineBreakOctet(s[i])
+    ELSE IF pairAsOne /\ s[i] = CR /\ i < Len(s) /\ s[i + 1] = LF THEN <<SP>> \o UnsafeToSpace(s, i + 2, pairAsOne)
+    ELSE IF IsUnsafe(s[i]) THEN <<SP>> \o UnsafeToSpace(s, i + 1, pairAsOne)
+    ELSE <<s[i]>> \o UnsafeToSpace(s, i + 1, pairAsOne)
+\* what an independent parser may report for a field value set to s
+ValueAlts(s) == {Trim(UnsafeToSpace(s, 1, TRUE)), Trim(UnsafeToSpace(s, 1, FALSE))}
+RECURSIVE Concat(_, _)
+Concat(ss, i) == IF i > Len(ss) THEN <<>> ELSE ss[i] \o Concat(ss, i + 1)
 =============================================================================
